@@ -526,6 +526,34 @@ def run(ctx):
             res.check(ok, "V-MULT", fs, norm(flags[0]), "single-threshold", "the validated flag is not `pvalue < <one scalar threshold per size>`: a hyperedge could be validated while one with a smaller p-value is not", loc(s.fi, flags[0]))
         else:
             res.unknown("V-MULT", fs, norm(flags[0]), "single-threshold", "the validated flag is not a plain comparison", loc(s.fi, flags[0]))
+        # V-PERSIZE: the threshold is computed anew for every size: no value assigned before the loop over the sizes (or in the
+        # iteration of another size) reaches the comparison with this size's p-values
+        res.rules["V-PERSIZE"] = "the threshold the p-values of one size are compared with is assigned on every path of that size's iteration (the threshold of an earlier size is never carried over)"
+        with res.guard("V-PERSIZE"):
+            thr_ = None
+            if isinstance(c, ast.Compare):
+                thr_ = next((x for x in [c.comparators[0], c.left] if isinstance(x, ast.Name)), None)
+            lp_ = s.enclosing(flags[0], (ast.For, ast.While))
+            if thr_ is None or lp_ is None:
+                res.unknown("V-PERSIZE", fs, norm(flags[0]), "assigned-per-size", "the threshold is not a local name compared inside a loop over the sizes", loc(s.fi, flags[0]))
+            else:
+                all_defs = [n for n in walk_no_nested(s.fi.node) if isinstance(n, (ast.Assign, ast.AugAssign, ast.AnnAssign)) and any(isinstance(y, ast.Name) and y.id == thr_.id and isinstance(y.ctx, ast.Store) for t in (n.targets if isinstance(n, ast.Assign) else [n.target]) for y in ast.walk(t))]
+                inside = [n for n in all_defs if any(n is y for y in ast.walk(lp_))]
+                outside = [n for n in all_defs if n not in inside]
+                hid_ = s.cfg_id(lp_)
+                fid_ = s.cfg_id(flags[0])
+                ids_ = {s.cfg_id(n) for n in inside} - {None}
+                if hid_ is None or fid_ is None:
+                    res.unknown("V-PERSIZE", fs, norm(flags[0]), "assigned-per-size", "loop not in the flow graph", loc(s.fi, flags[0]))
+                else:
+                    starts_ = s.cfg.succ(hid_, "iter") or s.cfg.succ(hid_)
+                    skip_ = any(s0 == fid_ or (s0 not in ids_ and s.cfg.reaches_without(s0, fid_, ids_ | {hid_})) for s0 in starts_)
+                    if skip_ and outside:
+                        res.violation("V-PERSIZE", fs, norm(outside[0])[:80], "assigned-per-size", f"`{thr_.id}` is set before the loop over the sizes and re-assigned only on some paths of an iteration: for a size where no assignment runs (no rank passes), the p-values are compared with the threshold of an EARLIER size, so hyperedges of this size are reported as validated although none passes the test at this size", loc(s.fi, outside[0]))
+                    elif skip_:
+                        res.unknown("V-PERSIZE", fs, norm(flags[0]), "assigned-per-size", f"a path of the iteration reaches the comparison without assigning `{thr_.id}`", loc(s.fi, flags[0]))
+                    else:
+                        res.ok("V-PERSIZE", fs, norm(flags[0]), "assigned-per-size", loc(s.fi, flags[0]))
         # V-STEPUP: the step-up (Benjamini-Hochberg style) threshold is the LARGEST passing rank's level, `k[ps < k][-1]`; the
         # level at the NUMBER of passing ranks (`k[count_nonzero(ps < k) - 1]`) is lower whenever a small rank fails and a
         # larger one passes
